@@ -35,6 +35,15 @@ def c06_family(tier, sd=0):
     for pad in (1, 3, 8, 13):
         for x in [("u", 5), ("i", 5), ("i", 16), ("u", 32), ("i", 33), ("f32",), ("enum", "E5"), ("enum", "E200")]:
             fam.append(flat_schema([("u", pad), x, ("u", 2)], E))
+    # every carrier type beyond frame bit 32, and last signals that straddle a byte boundary
+    for x in [("u", 5), ("i", 5), ("u", 8), ("i", 8), ("u", 12), ("i", 12), ("u", 16), ("i", 16), ("u", 20), ("i", 20),
+              ("enum", "E5"), ("enum", "E200")]:
+        fam.append(flat_schema([("u", 40), x], E))
+        fam.append(flat_schema([("u", 33), x, ("u", 2)], E))
+    for fs in ([("u", 4), ("u", 8)], [("u", 1), ("f32",), ("u", 16)], [("u", 7), ("u", 2)], [("u", 5), ("i", 12)],
+               [("f32",), ("i", 16)], [("u", 24), ("i", 12), ("u", 4)], [("i", 16)] * 4, [("u", 3), ("u", 56)],
+               [("u", 27), ("i", 32)], [("u", 2), ("f32",), ("u", 30)]):
+        fam.append(flat_schema(fs, E))
     fam.append(flat_schema([("u", 8), ("i", 16), ("f32",), ("enum", "E5")], E))
     fam.append(flat_schema([("u", 3), ("i", 13)]))
     fam.append(flat_schema([("i", 7), ("u", 1), ("i", 24), ("f32",)]))
